@@ -69,7 +69,7 @@ def _gen(case, j):
     first = ("dipole", "uniform", "gaussian", "tfsf", "dipole", "uniform", "dipole", "gaussian")[f]
     # a full-tensor box switches the whole scene to the 9-component kernels; the aligned-dipole slots keep the
     # 1/3-component kernels (the most common configuration) in play
-    mc = ("iso", "diag", "lossy", "magnetic", "lossy_mag") if f in (0, 4) else None
+    mc = ("iso", "diag", "lossy", "magnetic", "lossy_mag", "lossy_mag_vec") if f in (0, 4) else None
     scene, tags = randscene.random_scene(rng, must_have=must, dispersive_prob=0.15, first_source=first, allowed_mats=mc)
     # the three dipole slots drive the three injection paths: aligned electric, aligned magnetic, rotated
     d0 = scene["sources"][0]
